@@ -49,6 +49,9 @@ def pool():
             datetime.datetime(1900, 1, 1), datetime.datetime(9999, 12, 31), datetime.datetime(2020, 2, 29, 13, 45, 10),
             [1, 2, 3], [[1, 2], [3, 4]], [], [1, 'a', None, True], 3 + 4j, Hostile(), (1, 2), {'k': 1}, b'by']
     vals += [e[c] for c in ('#NULL!', '#DIV/0!', '#VALUE!', '#REF!', '#NAME?', '#NUM!', '#N/A', '#GETTING_DATA', '#ERROR!')]
+    XL = hx.errors().XLError
+    # error objects that are NOT the nine shared singletons (a host may build its own)
+    vals += [XL('#CIRCULAR!'), XL(''), XL('#N/A', 'detail'), XL(), XL('#N/A'), type('HostXL', (XL,), {'__str__': lambda self: 'host says no'})('x')]
     return vals
 
 
@@ -115,7 +118,8 @@ def unicode_string(rnd):
 
 FAULTS = ['ValueError', 'KeyError', 'ZeroDivisionError', 'RecursionError', 'MemoryError', 'StopIteration', 'AssertionError', 'SyntaxError', 'TypeError', 'OverflowError',
           'UnicodeDecodeError', 'IndexError', 'AttributeError', 'code-in-message', 'BadStr', 'return-hostile', 'return-error', 'return-nan', 'Exception-subclass',
-          'XL#NULL!', 'XL#DIV/0!', 'XL#VALUE!', 'XL#REF!', 'XL#NAME?', 'XL#NUM!', 'XL#N/A', 'XL#GETTING_DATA', 'XL#ERROR!']
+          'XL#NULL!', 'XL#DIV/0!', 'XL#VALUE!', 'XL#REF!', 'XL#NAME?', 'XL#NUM!', 'XL#N/A', 'XL#GETTING_DATA', 'XL#ERROR!',
+          'ownXL:#CIRCULAR!', 'ownXL:', 'ownXL:two-args', 'ownXL:no-args', 'ownXL:#N/A', 'ownXL:badstr', 'return-ownXL:#CIRCULAR!', 'return-ownXL:two-args']
 
 
 class Fault(BaseException):
@@ -232,6 +236,8 @@ class Check(BaseCheck):
     def fault_tag(what):
         if isinstance(what, dict) and what.get('fault') == 'BadStr':
             return ':exception-whose-str-raises'
+        if isinstance(what, dict) and 'ownXL' in str(what.get('fault')):
+            return ':host-built-error-object'
         return ''
 
     # ------------------------------------------------------------------ 1. strings
@@ -373,6 +379,12 @@ class Check(BaseCheck):
         objs = hx.error_objects()
         if name.startswith('XL'):
             return ('raise', objs[name[2:]])
+        if 'ownXL' in name:
+            XL = hx.errors().XLError
+            what = name.split(':', 1)[1]
+            obj = {'#CIRCULAR!': lambda: XL('#CIRCULAR!'), '': lambda: XL(''), 'two-args': lambda: XL('#N/A', 'detail'), 'no-args': lambda: XL(), '#N/A': lambda: XL('#N/A'),
+                   'badstr': lambda: type('BadXL', (XL,), {'__str__': lambda self: 1 / 0})('x')}[what]()
+            return ('return' if name.startswith('return') else 'raise', obj)
         if name == 'code-in-message':
             return ('raise', ValueError('#NUM!'))
         if name == 'BadStr':
@@ -501,6 +513,19 @@ class Check(BaseCheck):
             got = self.guarded(q, f, 8, {'fault': 'BadStr'})
             if got is not None and got[1]:
                 rec.nt(('badstr', f))
+        XL = hx.errors().XLError
+        w = hotxlfp.Parser()
+        w.set_function('CIRC', lambda *a: XL('#CIRCULAR!'))
+
+        def rz(*a):
+            raise XL('custom text')
+        w.set_function('RAISEXL', rz)
+        w.set_variable('ev_own', XL())
+        w.on('callCellValue', lambda c, s: s(XL('#N/A', 'detail')))
+        for f in ('CIRC()', 'RAISEXL()', 'ev_own', 'A1', '1+CIRC()', '-CIRC()', 'CIRC()&"x"', 'SUM(1,CIRC())', 'IFERROR(CIRC(),1)'):
+            got = self.guarded(w, f, 8, {'fault': 'ownXL:sentinel'})
+            if got is not None and got[1]:
+                rec.nt(('ownxl', f))
 
     def judge(self, merged, tier):
         why = []
